@@ -78,6 +78,11 @@ func (self *StreamDecoder) Decode(val interface{}) (err error) {
 			if self.readMore() {
 				goto try_skip
 			}
+			// NOTICE: a non-space byte was pending (More() was true), so the input ended
+			// inside a value or in front of junk: that is not a clean end of stream
+			if self.err == io.EOF {
+				self.err = io.ErrUnexpectedEOF
+			}
 			if self.err == nil {
 				self.err = SyntaxError{e, self.s, types.ParsingError(-s), ""}
 				self.setErr(self.err)
